@@ -27,6 +27,9 @@ NONLREC = {
 # seed grows (needs >= 3 growth steps that take different branches, e.g. abxcy)
 TWO_CYCLES = [('start', S(C('e'), EOF_)), ('e', A(S(C('pb'), T('x')), S(C('pc'), T('y')), T('a'))), ('pb', S(C('e'), T('b'))), ('pc', S(C('e'), T('c')))]
 TWO_CYCLES_CUT = [('start', S(C('e'), EOF_)), ('e', A(S(C('pb'), T('x'), CUT), S(C('pc'), T('y'), CUT), T('a'))), ('pb', S(C('e'), T('b'))), ('pc', S(C('e'), T('c')))]
+# a left-recursive rule with TWO alternatives that start with the recursive call; a cut inside a called rule at a later position (pruning memos at a cut
+# must leave the growing seed alone); the first alternative fails after the cut ran, the second re-invokes the rule at its start position
+TWO_REC_ALTS_CUT = [('start', S(C('e'), EOF_)), ('e', A(S(C('e'), T('+'), C('t'), T(';')), S(C('e'), T('+'), C('t')), C('t'))), ('t', A(T('x'), S(T('('), CUT, C('e'), T(')'))))]
 VARIANTS = {
     'nomemo': {'memoization': False},
     'memo1': {'perlinememos': 0.01},
@@ -113,6 +116,18 @@ def plan(tier, seed):
                 spec = {'grammar': nm, 'rules': rs, 'n': n, 'settings': SETTINGS, 'ref': False, 'variants': [VARIANTS[vn]], 'warm': WARM + ['abx', 'acy', 'abxbx'], 'trace': False}
                 obs.append(Ob(name=f'{nm}_{vn}_L{n}', factory='vt.props.c04:make_variant', spec=spec, params=[(f'c{i}', 0, UNI) for i in range(n)],
                               budget={3: 300, 4: 600, 5: 400 if tier == 'quick' else 1500, 6: 3000}[n], group=f'A:{vn}', extra_pre=pre))
+    for vn in ('noprune', 'memo1'):
+        for n in ((5,) if tier == 'quick' else (4, 5, 6, 7)):
+            alpha2 = [ord(c) for c in 'x+();q']
+            pre = ' and '.join('(' + ' or '.join(f'c{i} == {c}' for c in alpha2) + ')' for i in range(n))
+            if tier == 'quick':
+                # stated: first character an operand start, last character an operand end or ';', the middle over "x+()"
+                pos = [[ord(c) for c in 'x(']] + [[ord(c) for c in 'x+()']] * (n - 2) + [[ord(c) for c in 'x);']]
+                pre = ' and '.join('(' + ' or '.join(f'c{i} == {c}' for c in cs) + ')' for i, cs in enumerate(pos))
+            spec = {'grammar': 'two_rec_alts_cut', 'rules': TWO_REC_ALTS_CUT, 'n': n, 'settings': SETTINGS, 'ref': False, 'variants': [VARIANTS[vn]], 'warm': WARM + ['x+(x)', 'x+x;', 'x+(x);', '(x)+x', 'x+x+x'], 'trace': False,
+                    'variant_errors': verr}
+            obs.append(Ob(name=f'two_rec_alts_cut_{vn}_L{n}', factory='vt.props.c04:make_variant', spec=spec, params=[(f'c{i}', 0, UNI) for i in range(n)],
+                          budget={4: 300, 5: 600, 6: 2000, 7: 3000}[n], group=f'A:{vn}', extra_pre=pre))
     # B: BoundedDict step semantics ; C: MemoKey
     for k in ((3,) if tier == 'quick' else (3, 4)):
         obs.append(Ob(name=f'B_boundeddict_k{k}', factory='vt.props.c04:make_boundeddict', spec={'k': k},
